@@ -16,7 +16,7 @@ class C11(ParserSessionProp):
             'max_chunk_size 0-21; SimPool schedule: worker assignment, service times, stalls of 90-600 simulated seconds, '
             'reordered completion (F5); a share of pooled calls runs in really forked workers or in worker interpreters '
             'started under another PYTHONHASHSEED (F6); faults F1 budget, F2 length, F3 no parse, F4 callback raises in '
-            'parent or worker, F7 malformed input (7 kinds); every eighth run is a "grid" run: 80 '
+            'parent or worker, F7 malformed input (10 kinds, incl. arrays of the wrong rank); every eighth run is a "grid" run: 80 '
             'calls covering one slice of the (batch size 1-64) x (processes 1-40) grid on one-word sentences, 256 consecutive '
             'run indices visit every combination once. '
             'Distinct = digest of (sentence digest, config, context signature, schedule signature); '
